@@ -180,4 +180,153 @@ Fidelity(flat, fmt, obs, sep, residue, dev) ==
              (sep[k] = 0 /\ obs[k] \in strictIds /\ obs[k + 1] \in strictIds /\ obs[k] # obs[k + 1])
                 => seg[obs[k]] = seg[obs[k + 1]]
        /\ \A k \in DOMAIN residue : AllowedResidue(fmt, residue[k], dev)         \* no undocumented text
+
+(* =============================== C03: units =============================== *)
+\* formats whose documentation derives the full text from the units (statement of C03)
+JoinFormats == {"pdf", "pptx", "odp", "xlsx", "ods", "epub", "html", "mhtml", "txt", "md", "csv", "tsv", "json",
+                "odg", "eml", "mbox"}
+\* formats with one unit per source unit (page / slide / sheet / chapter / explicit RTF page)
+PagedFormats == {"pdf", "pptx", "odp", "xlsx", "ods", "epub", "rtf"}
+
+UnitDeviationNames ==
+    { "Rtf!EmptyPageDropped",         \* pages without text are skipped and later pages renumbered
+      "Docx!UnitsOmitTables",         \* heading-section units carry no table text at all
+      "Docx!UnitsRepeatTextbox",      \* text-box paragraphs are emitted once per AlternateContent branch and level
+      "Odt!UnitsIncludeHidden",       \* tracked deletions / annotations become unit text
+      "Odt!UnitsRepeatNested",
+      "Docx!PreambleLost",            \* body text before the first heading belongs to no unit
+      "Odt!EmptyHeadingDropped",
+      "Docx!UnitsBlockSdtLost" }      \* paragraphs inside a block-level content control are in no unit     \* a heading whose section has no content yields no unit (its text is lost)
+
+\* observation of one unit: [n, obs, sep, residue, heads (tokens of the heading path), tbl (tokens in unit tables)]
+\* Paged formats: unit k mirrors source unit k.
+PagedUnits(d, fmt, us, dev) ==
+    LET keep == IF "Rtf!EmptyPageDropped" \in dev /\ fmt = "rtf"
+                THEN SelectSeq([k \in DOMAIN d.units |-> k],
+                               LAMBDA k : \E a \in Range(Tokens(FlatUnitBody(d.units[k]))) : Req(fmt, a[3]) = "MUST")
+                ELSE [k \in DOMAIN d.units |-> k]
+    IN /\ Len(us) = Len(keep)                                        \* one unit per page / slide / sheet / chapter
+       /\ \A k \in DOMAIN us :
+            /\ us[k].n = (IF "Rtf!EmptyPageDropped" \in dev /\ fmt = "rtf" THEN k ELSE keep[k])   \* 1-based source position
+            /\ Fidelity(FlatUnit(d.units[keep[k]]), fmt, us[k].obs, us[k].sep, us[k].residue, dev)
+
+\* Flowing-text formats: one unit or one per heading section; together they cover the body exactly.
+\* Heading tokens may live in the heading path, cell tokens in the unit's tables.
+FlowUnits(d, fmt, us, dev) ==
+    LET flat  == FlatDoc(d)
+        toks  == Tokens(flat)
+        all   == ConcatAll([k \in DOMAIN us |-> us[k].obs])
+        heads == UNION {Range(us[k].heads) : k \in DOMAIN us}
+        tbls  == UNION {Range(us[k].tbl) : k \in DOMAIN us}
+        pos(a) == CHOOSE j \in DOMAIN toks : toks[j] = a
+        firstHead == IF \E j \in DOMAIN toks : toks[j][3] = "HEAD"
+                     THEN CHOOSE j \in DOMAIN toks : toks[j][3] = "HEAD" /\ \A i \in 1..(j - 1) : toks[i][3] # "HEAD"
+                     ELSE 0
+        \* next visible token after position j (0 = none)
+        nextVis(j) == IF \E i \in (j + 1)..Len(toks) : Req(fmt, toks[i][3]) = "MUST"
+                      THEN CHOOSE i \in (j + 1)..Len(toks) : Req(fmt, toks[i][3]) = "MUST"
+                                /\ \A h \in (j + 1)..(i - 1) : Req(fmt, toks[h][3]) # "MUST"
+                      ELSE 0
+        emptySection(a) == a[3] = "HEAD" /\ (nextVis(pos(a)) = 0 \/ toks[nextVis(pos(a))][3] = "HEAD")
+        lo(a) == IF (a[3] = "HEAD" /\ a[2] \in heads) \/ (a[3] = "CELL" /\ a[2] \in tbls)
+                    \/ ("Docx!PreambleLost" \in dev /\ fmt = "docx" /\ firstHead > 0 /\ pos(a) < firstHead)
+                    \/ ("Odt!EmptyHeadingDropped" \in dev /\ fmt = "odt" /\ emptySection(a))
+                    \/ ("Docx!UnitsBlockSdtLost" \in dev /\ fmt = "docx" /\ "bsdt" \in a[4])
+                    \/ ("Docx!UnitsOmitTables" \in dev /\ fmt = "docx" /\ "tbl" \in a[4])
+                 THEN 0 ELSE MinCount(fmt, a, dev)
+        hi(a) == IF ("Docx!UnitsRepeatTextbox" \in dev /\ fmt = "docx" /\ "tbx" \in a[4])
+                    \/ ("Odt!UnitsRepeatNested" \in dev /\ fmt = "odt" /\ ({"tbx", "tbl.nested", "ul.nested"} \cap a[4] # {}))
+                 THEN 9
+                 ELSE IF "Odt!UnitsIncludeHidden" \in dev /\ fmt = "odt" /\ a[3] \in {"DEL", "COMMENT"} THEN 9
+                 ELSE MaxCount(fmt, a, dev)
+    IN /\ (\E j \in DOMAIN toks : lo(toks[j]) > 0) => Len(us) >= 1     \* (an empty document may have no unit)
+       /\ \A k \in DOMAIN us : us[k].n >= 1 /\ (k > 1 => us[k].n > us[k - 1].n)          \* strictly increasing, 1-based
+       /\ \A k \in DOMAIN all : \E j \in DOMAIN toks : toks[j][2] = all[k]               \* nothing invented
+       /\ \A j \in DOMAIN toks : /\ Count(all, toks[j][2]) >= lo(toks[j])                 \* every piece in some unit
+                                 /\ Count(all, toks[j][2]) <= hi(toks[j])                 \* ... and in no other
+       /\ LET strict == {toks[j][2] : j \in {i \in DOMAIN toks : Req(fmt, toks[i][3]) = "MUST" /\ toks[i][3] # "HEAD"}}
+              order  == SelectSeq([j \in DOMAIN toks |-> toks[j][2]], LAMBDA i : i \in strict /\ Count(all, i) > 0)
+          IN FirstOcc(SelectSeq(all, LAMBDA i : i \in strict), {}) = order               \* source order across units
+       /\ \A k \in DOMAIN us : \A w \in DOMAIN us[k].residue : AllowedResidue(fmt, us[k].residue[w], dev)
+
+Units(d, fmt, us, full, joinok, dev) ==
+    /\ IF fmt \in PagedFormats /\ ~(fmt = "rtf" /\ Len(d.units) = 1)
+       THEN PagedUnits(d, fmt, us, dev) ELSE FlowUnits(d, fmt, us, dev)
+    /\ fmt \in JoinFormats => joinok                  \* get_full_text() = trimmed newline-join of the unit texts
+
+(* =============================== C13: tables =============================== *)
+TableDeviationNames ==
+    { "Xlsx!HeaderPlaceholder",        \* empty first-row cells become the text 'Unnamed: <col>'
+      "Epub!NestedTableGarbles",       \* a table containing a nested table loses its own cells
+      "Xlsx!TableNameRowSkipped",      \* a first row with exactly one non-empty cell is dropped from the table
+      "Rtf!NeighbourTablesMerged" }    \* tables separated by less than ~20 characters of text are returned as one
+
+RECURSIVE TopTables(_)
+TopTables(bs) ==
+    ConcatAll([k \in DOMAIN bs |->
+        CASE bs[k][1] = "tbl" -> << bs[k] >>
+          [] bs[k][1] = "ul"  -> ConcatAll([i \in DOMAIN bs[k][2] |-> TopTables(bs[k][2][i])])
+          [] bs[k][1] \in {"sdt", "tbx"} -> TopTables(bs[k][2])
+          [] OTHER -> <<>>])
+
+HasNested(t) == \E a \in Range(Tokens(FlatBlock(t, Ctx0("BODY")))) : "tbl.nested" \in a[4]
+
+\* expected content of a source cell: ids of its MUST tokens, in order
+CellIds(cell, fmt) ==
+    LET ts == Tokens(FlatBlocks(cell, [cls |-> "CELL", marks |-> {"tbl"}]))
+    IN SelectSeq([k \in DOMAIN ts |-> IF Req(fmt, ts[k][3]) = "MUSTNOT" THEN 0 ELSE ts[k][2]], LAMBDA i : i # 0)
+
+\* an observed cell is a record [k |-> "ids" | "lit" | "val", v |-> token ids, s |-> other text / typed value]
+IsIds(c) == c.k = "ids"
+
+EmptyCell == [k |-> "ids", v |-> <<>>, s |-> ""]
+Max2(a, b) == IF a >= b THEN a ELSE b
+
+\* does the table's first row look like a caption row (exactly one non-empty cell, more than one column)?
+CaptionRow(row, fmt) == Len(row) > 1 /\ Cardinality({j \in DOMAIN row : CellIds(row[j], fmt) # <<>>}) = 1
+
+GridMatches(t, fmt, g, dev) ==
+    LET rows == IF "Xlsx!TableNameRowSkipped" \in dev /\ fmt = "xlsx" /\ t[2] # <<>> /\ CaptionRow(t[2][1], fmt)
+                THEN Tail(t[2]) ELSE t[2] IN
+    /\ Len(g.grid) = Len(rows)                                                     \* r rows
+    /\ \A i \in DOMAIN rows :
+         \A j \in 1..Max2(Len(rows[i]), Len(g.grid[i])) :                          \* ragged rows: padding is don't-care,
+            LET src == IF j <= Len(rows[i]) THEN CellIds(rows[i][j], fmt) ELSE <<>>  \* missing cells count as empty
+                oc  == IF j <= Len(g.grid[i]) THEN g.grid[i][j] ELSE EmptyCell
+            IN \/ (IsIds(oc) /\ oc.v = src)                                         \* cell (i,j) in place
+               \/ ("Xlsx!HeaderPlaceholder" \in dev /\ fmt = "xlsx" /\ i = 1 /\ src = <<>> /\ oc.k = "lit")
+    /\ g.dim[1] = Len(g.grid)                                                      \* get_dim() = shape of get_table()
+    /\ g.dim[2] = (IF g.grid = <<>> THEN 0
+                   ELSE LET m == CHOOSE i \in DOMAIN g.grid : \A j \in DOMAIN g.grid : Len(g.grid[j]) <= Len(g.grid[i])
+                        IN Len(g.grid[m]))
+
+RECURSIVE SubseqMatch(_, _, _, _)
+\* every source table is matched, in order, by an observed table; observed tables in between must be
+\* nested tables of the source (their separate listing is DON'T-CARE)
+SubseqMatch(src, obs, fmt, dev) ==
+    IF src = <<>> THEN TRUE
+    ELSE IF obs = <<>> THEN FALSE
+    ELSE \/ (GridMatches(Head(src), fmt, Head(obs), dev) /\ SubseqMatch(Tail(src), Tail(obs), fmt, dev))
+         \/ SubseqMatch(src, Tail(obs), fmt, dev)
+
+RECURSIVE MergedMatch(_, _, _, _)
+\* as-built RTF grouping: runs of neighbouring source tables come back as one table (rows concatenated)
+MergedMatch(src, obs, fmt, dev) ==
+    IF src = <<>> THEN obs = <<>>
+    ELSE IF obs = <<>> THEN FALSE
+    ELSE \E k \in 1..Len(src) :
+            /\ GridMatches(<<"tbl", ConcatAll([i \in 1..k |-> src[i][2]])>>, fmt, Head(obs), dev)
+            /\ MergedMatch(SubSeq(src, k + 1, Len(src)), Tail(obs), fmt, dev)
+
+TablesOK(d, fmt, obs, dev) ==
+    LET src == ConcatAll([k \in DOMAIN d.units |-> TopTables(d.units[k].blocks)])
+        nested == \E k \in DOMAIN src : HasNested(src[k])
+        nonempty == SelectSeq(obs, LAMBDA g : g.grid # <<>>)        \* an empty sheet may or may not yield a table
+    IN /\ \A k \in DOMAIN obs : obs[k].dim[1] = Len(obs[k].grid)
+       /\ IF nested
+          THEN SubseqMatch(src, nonempty, fmt, dev) \/ ("Epub!NestedTableGarbles" \in dev /\ fmt = "epub")
+          ELSE \/ /\ Len(nonempty) = Len(src)                        \* none lost, merged or invented
+                  /\ \A k \in DOMAIN src : GridMatches(src[k], fmt, nonempty[k], dev)
+               \/ ("Rtf!NeighbourTablesMerged" \in dev /\ fmt = "rtf" /\ Len(src) > 1
+                     /\ MergedMatch(src, nonempty, fmt, dev))
 =============================================================================
